@@ -27,9 +27,14 @@ def num_equal(a, b, strict_arrays=True):
         bb = np.asarray(b)
         if a.dtype.kind == "O":
             return a.shape == bb.shape and all(num_equal(x, y) for x, y in zip(a.reshape(-1), bb.reshape(-1)))
-        if strict_arrays and (a.dtype != bb.dtype or a.shape != bb.shape or
-                              np.ascontiguousarray(a).tobytes() != np.ascontiguousarray(bb).tobytes()):
-            return False
+        if strict_arrays:
+            da, db = a.dtype, bb.dtype
+            if a.ndim == 0:
+                # a 0-d array comes back as a numpy SCALAR, which is always in native byte order
+                da, db = da.newbyteorder("="), db.newbyteorder("=")
+                a, bb = a.astype(da), bb.astype(db)
+            if da != db or a.shape != bb.shape or F.canon_bytes(a) != F.canon_bytes(bb):
+                return False
         return a.shape == bb.shape and np.array_equal(a, bb, equal_nan=True)
     if isinstance(a, (tuple, list)) and len(a) > 0 and all(isinstance(x, (str, bytes, tuple, list)) for x in a):
         try:
